@@ -7,11 +7,33 @@
 (* transaction; every action answers with an error CLASS (`last.cls`).      *)
 (*                                                                          *)
 (* A payment is  [ex, fr, att]: exists, failure reason (-1 = none), and the *)
-(* attempts by attempt id.  An attempt is [st, kind, addr, tot, amt]:       *)
+(* attempts by attempt id.  An attempt is [st, img, reg]:                   *)
 (*   st   in none | inflight | settled | failed                             *)
-(*   kind in single (no MPP record) | mpp (MPP record addr/tot) |           *)
-(*           blind  (blinded route, final hop total amount tot)             *)
-(*   amt  the receiver amount, in abstract units (Value = payment amount).  *)
+(*   img  the STORED IMAGE of the attempt's route: what the backend keeps   *)
+(*        (KV: serializeHTLCAttemptInfo/serializeHop; SQL: InsertHtlcAttempt*)
+(*        + insertRouteHops) and hands back through fetchPayment /          *)
+(*        dbDataToRoute.  EVERYTHING the store decides later (verifyAttempt,*)
+(*        SentAmt, RemainingAmt) is computed from img, as in the code, which*)
+(*        re-reads the payment inside the transaction of every call.        *)
+(*   reg  ghost: the route that was handed to RegisterAttempt.              *)
+(* A route is [ta, ttl, fha, fcr, src, hops]: total amount (receiver amount *)
+(* + fees), total time lock, first-hop amount (0 = unset), first-hop wire   *)
+(* custom records (0 = none), source key, and 1..3 hops.  A hop is          *)
+(* [pk, ch, tl, amt, ma, mt, amp, enc, bp, tot, cr, md]: node key, channel, *)
+(* outgoing time lock, amount to forward, MPP record (ma = payment address, *)
+(* 0 = no record; mt = total), AMP record (0 = none), encrypted data of a   *)
+(* blinded hop (0 = none), blinding point (0 = none; set on the introduction*)
+(* node), blinded-path total amount, custom records (0 = none), metadata    *)
+(* (0 = none).  Amounts are in abstract units (Value = payment amount);     *)
+(* keys, blobs and records are small ids of fixed concrete values.          *)
+(* The receiver amount, "blinded", the MPP record and the blinded total are *)
+(* read off the FINAL hop exactly as route.Route / verifyAttempt do, so a   *)
+(* hop that is both introduction node and final hop (blinded path of length *)
+(* one), separate introduction nodes, MPP+AMP, custom records and metadata  *)
+(* are all the same kind of object: a route shape (see the constructors).   *)
+(* The documented store is the identity: Store(d) = d (constant Lossy = {}).*)
+(* A lossy store (Lossy = hop fields that do not survive the round trip) is *)
+(* only used to show that RoundTrip / AdmitByRegistered bite.               *)
 (* Status, Registrable, verifyAttempt are transcribed from                  *)
 (* payment_status.go / payment.go; they are shared by both backends.        *)
 (*                                                                          *)
@@ -35,7 +57,8 @@ CONSTANTS Hashes,      \* payment names, e.g. {"h1","h2"}
           Value,       \* payment amount, in units
           Descs,       \* attempt descriptors offered to Register (MC / Gen)
           Reasons,     \* failure reasons offered to Fail (MC / Gen)
-          F2Quirk, KVDupQuirk
+          F2Quirk, KVDupQuirk,
+          Lossy        \* hop fields the store loses ({} = the documented store)
 
 VARIABLES payments,    \* Hashes -> payment record
           last         \* observation of the last call: [op, h, cls, n]
@@ -43,9 +66,94 @@ VARIABLES payments,    \* Hashes -> payment record
 vars == <<payments, last>>
 
 Ids  == 1..NA
-D(kind, addr, tot, amt) == [kind |-> kind, addr |-> addr, tot |-> tot, amt |-> amt]
-NoAtt  == [st |-> "none", kind |-> "", addr |-> 0, tot |-> 0, amt |-> 0]
-Att(st, d) == [st |-> st, kind |-> d.kind, addr |-> d.addr, tot |-> d.tot, amt |-> d.amt]
+
+-----------------------------------------------------------------------------
+(* Routes and their shapes *)
+H0 == [pk |-> 0, ch |-> 0, tl |-> 0, amt |-> 0, ma |-> 0, mt |-> 0, amp |-> 0,
+       enc |-> 0, bp |-> 0, tot |-> 0, cr |-> 0, md |-> 0]
+NoRoute == [ta |-> 0, ttl |-> 0, fha |-> 0, fcr |-> 0, src |-> 0, hops |-> <<>>]
+
+NHops(r)   == Len(r.hops)
+Final(r)   == r.hops[NHops(r)]                  \* route.Route.FinalHop
+RAmt(r)    == IF NHops(r) = 0 THEN 0 ELSE Final(r).amt   \* Route.ReceiverAmt
+Blinded(r) == Final(r).enc # 0                  \* len(FinalHop().EncryptedData) != 0
+HasMpp(r)  == Final(r).ma # 0                   \* FinalHop().MPP != nil
+
+\* a plain forwarding hop at position i of n
+Hp(i, n, amt) == [H0 EXCEPT !.pk = i, !.ch = 10 + i, !.tl = 100 + 10 * (n - i), !.amt = amt]
+\* the route over the given hops paying `fee` on top of the receiver amount
+Rt(hops, fee) == [ta |-> hops[Len(hops)].amt + fee, ttl |-> 110 + 10 * Len(hops),
+                  fha |-> 0, fcr |-> 0, src |-> 9, hops |-> hops]
+OnFinal(r, f(_)) == [r EXCEPT !.hops[NHops(r)] = f(@)]
+
+\* n plain hops, no MPP record (single-shot payment)
+SingleR(n, amt) == Rt([i \in 1..n |-> Hp(i, n, amt)], 1)
+\* MPP shard: the final hop carries the MPP record (payment address, total)
+MppR(n, addr, tot, amt) == LET f(hp) == [hp EXCEPT !.ma = addr, !.mt = tot] IN OnFinal(SingleR(n, amt), f)
+\* AMP shard: MPP record and AMP record k on the final hop
+AmpR(n, addr, tot, amt, k) == LET f(hp) == [hp EXCEPT !.amp = k] IN OnFinal(MppR(n, addr, tot, amt), f)
+\* pre plain hops, then a blinded path of len hops: the first blinded hop is
+\* the introduction node (blinding point), every blinded hop has encrypted
+\* data, all but the final one have zero amount / time lock (pathfind.go
+\* newRoute), the final one carries the path's total amount.  len = 1 is the
+\* introduction-node-only path: one hop is introduction node AND final hop.
+BlindR(pre, len, tot, amt) ==
+  LET n == pre + len
+      bh(i) == LET j == i - pre IN
+               [Hp(i, n, IF i = n THEN amt ELSE 0) EXCEPT
+                   !.tl  = IF i = n THEN @ ELSE 0,
+                   !.enc = j,
+                   !.bp  = IF j = 1 THEN 1 ELSE 0,
+                   !.tot = IF i = n THEN tot ELSE 0]
+  IN Rt([i \in 1..n |-> IF i <= pre THEN Hp(i, n, amt) ELSE bh(i)], 1)
+\* decorations that every backend must keep
+WithCr(r, i, k) == [r EXCEPT !.hops[i].cr = k]          \* custom records on hop i
+WithMd(r, k)    == [r EXCEPT !.hops[NHops(r)].md = k]   \* metadata for the payee
+WithFirstHop(r, a, k) == [r EXCEPT !.fha = a, !.fcr = k] \* first-hop amount / wire records
+WithFee(r, fee) == [r EXCEPT !.ta = RAmt(r) + fee]
+\* ill-formed: an MPP record in a blinded payment (verifyAttempt refuses it)
+BlindMppR(pre, len, tot, amt, addr) == LET f(hp) == [hp EXCEPT !.ma = addr, !.mt = tot] IN OnFinal(BlindR(pre, len, tot, amt), f)
+
+\* a name for reports
+ShapeName(r) ==
+  IF NHops(r) = 0 THEN ""
+  ELSE IF Blinded(r) THEN (IF HasMpp(r) THEN "blind+mpp"
+                           ELSE IF Final(r).bp # 0 THEN "blind-intro-is-final"
+                           ELSE "blind")
+  ELSE IF Final(r).amp # 0 THEN "amp"
+  ELSE IF HasMpp(r) THEN "mpp"
+  ELSE "single"
+
+(* The store.  Lossy = {} is the documented store (the identity). *)
+Keep(f, v) == IF f \in Lossy THEN 0 ELSE v
+StoreHop(hp) == [hp EXCEPT !.ma = Keep("ma", @), !.mt = Keep("mt", @), !.amp = Keep("amp", @),
+                           !.enc = Keep("enc", @), !.bp = Keep("bp", @), !.tot = Keep("tot", @),
+                           !.cr = Keep("cr", @), !.md = Keep("md", @), !.amt = Keep("amt", @)]
+Store(d) == [d EXCEPT !.hops = [i \in 1..NHops(d) |-> StoreHop(d.hops[i])]]
+
+(* The universe of route shapes offered to Register (MC: one payment, every  *)
+(* combination; Gen: drawn at random): 1..3 hops; single-shot; MPP shards    *)
+(* (also exceeding, other address, other total); AMP shards; blinded paths   *)
+(* of length 1..3 behind 0..2 plain hops - length 1 is the hop that is both  *)
+(* introduction node and final hop; other / missing blinded total; MPP record*)
+(* in a blinded route; custom records, metadata, first-hop data, zero fee.   *)
+RouteUniverse ==
+  LET singles == {SingleR(n, a) : n \in 1..3, a \in 1..Value}
+      mpps    == {MppR(n, 1, Value, a) : n \in 1..3, a \in 1..(Value + 1)}
+                 \cup {MppR(2, 2, Value, 1), MppR(2, 1, Value + 1, 1)}
+      amps    == {AmpR(n, 1, Value, 1, k) : n \in 1..2, k \in 1..2}
+      blinds  == {BlindR(pl[1], pl[2], Value, a) : pl \in {<<0,1>>, <<1,1>>, <<2,1>>, <<0,2>>, <<1,2>>, <<0,3>>}, a \in 1..Value}
+                 \cup {BlindR(0, 1, Value + 1, 1), BlindR(1, 2, Value + 1, 1), BlindR(0, 1, 0, 1), BlindR(0, 2, 0, 1)}
+      ill     == {BlindMppR(0, 1, Value, 1, 1), BlindMppR(1, 2, Value, 1, 1)}
+      decor   == {WithCr(MppR(2, 1, Value, 1), 1, 1), WithCr(MppR(2, 1, Value, 1), 2, 2),
+                  WithMd(MppR(2, 1, Value, 1), 1), WithMd(SingleR(1, Value), 2),
+                  WithCr(BlindR(0, 1, Value, 1), 1, 1), WithCr(BlindR(1, 2, Value, 1), 2, 1),
+                  WithFirstHop(MppR(1, 1, Value, 1), 2, 1), WithFirstHop(BlindR(0, 1, Value, 1), 1, 2),
+                  WithFee(MppR(3, 1, Value, 1), 0), WithFee(BlindR(1, 1, Value, 1), 2)}
+  IN singles \cup mpps \cup amps \cup blinds \cup ill \cup decor
+
+NoAtt  == [st |-> "none", img |-> NoRoute, reg |-> NoRoute]
+Att(st, d) == [st |-> st, img |-> Store(d), reg |-> d]
 Absent == [ex |-> FALSE, fr |-> -1, att |-> [i \in Ids |-> NoAtt]]
 Fresh  == [ex |-> TRUE,  fr |-> -1, att |-> [i \in Ids |-> NoAtt]]
 
@@ -60,7 +168,7 @@ NumInflight(p) == Cardinality({i \in Ids : p.att[i].st = "inflight"})
 \* SentAmt: settled or still in flight
 Sent(p) == LET S[i \in 0..NA] == IF i = 0 THEN 0
                                  ELSE S[i-1] + (IF p.att[i].st \in {"inflight", "settled"}
-                                                THEN p.att[i].amt ELSE 0)
+                                                THEN RAmt(p.att[i].img) ELSE 0)
            IN S[NA]
 
 \* decidePaymentStatus, as the code's switch
@@ -74,22 +182,38 @@ Status(p) == IF ~p.ex THEN "none"
 \* MPPaymentState.PaymentFailed: TerminalInfo returns the reason only if nothing settled
 PaymentFailed(p) == p.fr # -1 /\ ~HasSettled(p)
 
-\* verifyAttempt's compatibility of a new attempt with ONE in-flight attempt
-Compatible(d, a) == /\ d.kind = a.kind
-                    /\ d.kind = "mpp"   => (d.addr = a.addr /\ d.tot = a.tot)
-                    /\ d.kind = "blind" => d.tot = a.tot
-Mismatch(p, d) == \/ d.kind = "blind" /\ d.tot = 0
-                  \/ \E i \in Ids : p.att[i].st = "inflight" /\ ~Compatible(d, p.att[i])
+\* verifyAttempt: a new route d against the route a of ONE in-flight attempt
+Clash(d, a) ==
+  IF Blinded(d)
+    THEN \/ HasMpp(a)                              \* ErrMPPRecordInBlindedPayment
+         \/ ~Blinded(a)                            \* ErrMixedBlindedAndNonBlindedPayments
+         \/ Final(d).tot # Final(a).tot            \* ErrBlindedPaymentTotalAmountMismatch
+    ELSE \/ Blinded(a)                             \* ErrMixedBlindedAndNonBlindedPayments
+         \/ HasMpp(d) # HasMpp(a)                  \* ErrMPPayment / ErrNonMPPayment
+         \/ HasMpp(d) /\ (Final(d).ma # Final(a).ma \/ Final(d).mt # Final(a).mt)
+\* ... and on its own: a blinded route needs the total and must not have an MPP record
+IllFormed(d) == Blinded(d) /\ (Final(d).tot = 0 \/ HasMpp(d))
+\* `which` selects what is known about the in-flight attempts: "img" is what
+\* the store decides on, "reg" what was registered (ghost, for AdmitByRegistered)
+MismatchOn(p, d, which) ==
+  \/ IllFormed(d)
+  \/ \E i \in Ids : p.att[i].st = "inflight" /\ Clash(d, p.att[i][which])
+Mismatch(p, d) == MismatchOn(p, d, "img")
+\* a non-MPP, non-blinded attempt must carry the full amount
+ValMismatch(d) == ~Blinded(d) /\ ~HasMpp(d) /\ RAmt(d) # Value
 
 IdInUse(id)    == \E g \in Hashes : payments[g].att[id].st # "none"
 Foreign(h, id) == {g \in Hashes \ {h} : payments[g].att[id].st # "none"}
 
-Answer(op, h, cls, n) == last' = [op |-> op, h |-> h, cls |-> cls, n |-> n]
+AnswerReg(op, h, cls, n, id, d) == last' = [op |-> op, h |-> h, cls |-> cls, n |-> n, id |-> id, rt |-> d]
+Answer(op, h, cls, n) == AnswerReg(op, h, cls, n, 0, NoRoute)
 Set(h, p) == payments' = [payments EXCEPT ![h] = p]
+
+NoLast == [op |-> "none", h |-> "", cls |-> "ok", n |-> -1, id |-> 0, rt |-> NoRoute]
 
 -----------------------------------------------------------------------------
 Init == /\ payments = [h \in Hashes |-> Absent]
-        /\ last = [op |-> "none", h |-> "", cls |-> "ok", n |-> -1]
+        /\ last = NoLast
 
 (* InitPayment: Status.initializable() - only an absent or a Failed payment. *)
 (* Re-initiation drops the attempts and the failure reason.                  *)
@@ -101,8 +225,9 @@ InitPayment(h) ==
   /\ Answer("Init", h, InitCls(h), -1)
   /\ IF InitCls(h) = "ok" THEN Set(h, Fresh) ELSE UNCHANGED payments
 
-(* RegisterAttempt: Registrable(), verifyAttempt(), then the insert.  The    *)
-(* attempt id is unique store-wide (SQL: UNIQUE(attempt_index)).             *)
+(* RegisterAttempt: Registrable(), verifyAttempt() against the STORED images *)
+(* of the in-flight attempts, then the insert of Store(d).  The attempt id   *)
+(* is unique store-wide (SQL: UNIQUE(attempt_index)).                        *)
 RegisterCls(h, id, d) ==
   LET p == payments[h] IN
   IF ~p.ex THEN "notfound"
@@ -111,13 +236,13 @@ RegisterCls(h, id, d) ==
   ELSE IF Status(p) = "inflight" /\ HasSettled(p) THEN "pendsettled"
   ELSE IF Status(p) = "inflight" /\ PaymentFailed(p) THEN "pendfailed"
   ELSE IF Mismatch(p, d) THEN "mismatch"
-  ELSE IF d.kind = "single" /\ d.amt # Value THEN "valmismatch"
-  ELSE IF Sent(p) + d.amt > Value THEN "exceeds"
+  ELSE IF ValMismatch(d) THEN "valmismatch"
+  ELSE IF Sent(p) + RAmt(d) > Value THEN "exceeds"
   ELSE IF IdInUse(id) THEN "dupid"
   ELSE "ok"
 
 Register(h, id, d) ==
-  /\ Answer("Register", h, RegisterCls(h, id, d), -1)
+  /\ AnswerReg("Register", h, RegisterCls(h, id, d), -1, id, d)
   /\ IF RegisterCls(h, id, d) = "ok"
        THEN Set(h, [payments[h] EXCEPT !.att[id] = Att("inflight", d)])
        ELSE UNCHANGED payments
@@ -127,7 +252,7 @@ Register(h, id, d) ==
 RegisterOverwrite(h, id, d) ==
   /\ KVDupQuirk
   /\ RegisterCls(h, id, d) = "dupid"
-  /\ Answer("Register", h, "ok", -1)
+  /\ AnswerReg("Register", h, "ok", -1, id, d)
   /\ LET old == payments[h].att[id].st IN
      Set(h, [payments[h] EXCEPT !.att[id] = Att(IF old = "none" THEN "inflight" ELSE old, d)])
 
@@ -254,7 +379,7 @@ AdmitOnlyWhenOpenA ==
                            /\ St(h) \in {"initiated", "inflight"}
                            /\ ~HasSettled(payments[h])
                            /\ payments[h].fr = -1
-                           /\ Sent(payments[h]) + payments'[h].att[id].amt <= Value
+                           /\ Sent(payments[h]) + RAmt(payments'[h].att[id].img) <= Value
                            /\ last'.op = "Register" /\ last'.h = h /\ last'.cls = "ok"
 AdmitOnlyWhenOpen == [][AdmitOnlyWhenOpenA]_vars
 
@@ -294,6 +419,18 @@ AttemptStableA ==
                         \/ St2(h) = "none" /\ last'.op \in {"DeletePayment", "DeletePayments"}
                         \/ last'.op = "Init" /\ last'.h = h /\ St(h) = "failed"
 AttemptStable == [][AttemptStableA]_vars
+
+\* the store round trip: what the store holds (and FetchPayment / the returned
+\* MPPayment show) of every attempt is the route that was registered
+RoundTripA == \A h \in Hashes, id \in Ids : payments'[h].att[id].img = payments'[h].att[id].reg
+RoundTrip == [][RoundTripA]_vars
+
+\* admission of a later shard is decided by what was REGISTERED for the
+\* in-flight shards: a shard is refused as mismatching iff it mismatches them
+AdmitByRegisteredA ==
+  (last'.op = "Register" /\ last'.cls \in {"ok", "mismatch", "valmismatch", "exceeds", "dupid"}) =>
+      (last'.cls = "mismatch") = MismatchOn(payments[last'.h], last'.rt, "reg")
+AdmitByRegistered == [][AdmitByRegisteredA]_vars
 
 \* an attempt is resolved only through a call that names its own payment
 OwnHashOnlyA ==
